@@ -477,6 +477,49 @@ def driver_skeleton():
     return sk.nopaque, term
 
 
+def manager_counter_writes():
+    """statements of TransformationManager.{h,cpp} that write the counters between the command line and the hand-over to the
+    transformation - other than the two setters and the constructor's initialisers (expected: none), and the hand-over itself"""
+    bad = []
+    for fn in ('TransformationManager.h', 'TransformationManager.cpp'):
+        src = strip_comments_strings(open(os.path.join(CD, fn)).read())
+        for m in re.finditer(r'\b(TransformationCounter|ToCounter)\s*(=(?!=)|\+\+|--|[-+*/|&^%]=|<<=|>>=)([^;]*);', src):
+            stmt = ' '.join(m.group(0).split())
+            if fn.endswith('.h') and stmt in ('TransformationCounter = Counter;', 'ToCounter = Counter;'):
+                continue
+            bad.append(f'{fn}: {stmt}')
+        for m in re.finditer(r'(\+\+|--)\s*(TransformationCounter|ToCounter)\b', src):
+            bad.append(f'{fn}: {m.group(0)}')
+    cpp = strip_comments_strings(open(os.path.join(CD, 'TransformationManager.cpp')).read())
+    hand = [' '.join(x.split()) for x in re.findall(r'CurrentTransformationImpl\s*->\s*set(?:Transformation|To)Counter\s*\([^)]*\)', cpp)]
+    want = ['CurrentTransformationImpl->setTransformationCounter(TransformationCounter)', 'CurrentTransformationImpl->setToCounter(ToCounter)']
+    if sorted(hand) != sorted(want):
+        bad.append('TransformationManager.cpp: hand-over ' + ' / '.join(hand))
+    return bad
+
+
+def unit_handler_stops():
+    """`bool X::HandleTopLevelDecl(...)` returning anything but true: clang stops parsing then and HandleTranslationUnit
+    (which holds the protocol clauses) is never called"""
+    bad = []
+    for f in sorted(glob.glob(os.path.join(CD, '*.cpp'))):
+        src = strip_comments_strings(open(f).read())
+        for m in re.finditer(r'\bbool\s+[\w:<>]*::HandleTopLevelDecl\s*\([^)]*\)\s*\{', src):
+            i = m.end()
+            depth = 1
+            while i < len(src) and depth:
+                depth += {'{': 1, '}': -1}.get(src[i], 0)
+                i += 1
+            body = src[m.end():i]
+            rets = [' '.join(r.split()) for r in re.findall(r'\breturn\b([^;]*);', body)]
+            if not rets:
+                bad.append(f'{os.path.basename(f)}: HandleTopLevelDecl has no return')
+            for r in rets:
+                if r != 'true':
+                    bad.append(f'{os.path.basename(f)}: HandleTopLevelDecl returns {r}')
+    return bad
+
+
 def warn_supported():
     """the transformations the tool's own help text names as supporting --warn-on-counter-out-of-bounds"""
     src = open(os.path.join(CD, 'ClangDelta.cpp')).read()
@@ -739,6 +782,9 @@ def generate():
     out.append('(* Transformation::checkCounterValidity: (counter > instances, to-counter > instances, warn, returns false, sets TransMaxInstanceError) *)')
     out.append('Definition counter_validity_table : list (bool * bool * bool * bool * bool) := '
                + coq_list(['(%s, %s, %s, %s, %s)' % tuple(b(x) for x in r) for r in counter_validity_table()]) + '.')
+    out.append('(* writes to the counters inside the manager (besides setters / initialisers / the hand-over) and consumers that stop the parse early *)')
+    out.append('Definition manager_counter_writes : list string := ' + coq_list([coq_string(x) for x in manager_counter_writes()], 'string') + '.')
+    out.append('Definition unit_handler_stops : list string := ' + coq_list([coq_string(x) for x in unit_handler_stops()], 'string') + '.')
     out.append('(* the transformations that the help text of --warn-on-counter-out-of-bounds names as supporting it *)')
     out.append('Definition warn_supported : list string := ' + coq_list([coq_string(x) for x in warn_supported()], 'string') + '.')
     dn, dterm = driver_skeleton()
